@@ -18,19 +18,21 @@ def race_post(ctx, rows, info, broken):
     except Exception as ex:  # noqa: BLE001
         res = {"hit": False, "err": str(ex)}
     info.setdefault("extra_coverage", {})["race_destroy_create"] = res
+    # since "fix: RemoveTimeBucket holds the root lock" the race is a regression: any inconsistency is a violation
     if res.get("hit"):
         rows.append({"source": "race:corpus/C17conc/race_destroy_create.json", "input": desc, "obs": res, "holds": False,
-                     "class": "destroy-races-create", "detail": "catalog_only=%s disk_only=%s" % (res.get("catalog_only"), res.get("disk_only")),
-                     "in_domain": False, "tags": ["race"], "nontrivial": False, "key": "race"})
-    else:
-        ctx.notes.append("race Destroy || Create not hit in %s trials (%s)" % (res.get("trials"), res.get("err", "")))
+                     "class": "", "detail": "Destroy || Create left the catalog inconsistent with the disk: catalog_only=%s disk_only=%s create_msg=%s"
+                     % (res.get("catalog_only"), res.get("disk_only"), res.get("create_msg")),
+                     "in_domain": True, "tags": ["race"], "nontrivial": False, "key": "race"})
+    elif res.get("err"):
+        broken.append(("correspondence", "c17race", str(res.get("err"))))
 
 
 SPEC = {
     "id": "C17",
     "coq_props": ["Properties/C17.v", "Properties/C17conc.v", "Corr/C17.v"],
     "module": "MS.Properties.C17 MS.Properties.C17conc",
-    "theorems": ["C17_seq_K1", "C17_seq_K2", "C17_anyname_refuted", "C17conc_refuted", "C17conc_guarded_K"],
+    "theorems": ["C17_seq_K1", "C17_seq_K2", "C17conc_all_schedules_K"],
     "corr_require": "Require Import MS.Corr.C17.",
     "agrees": "C17.agrees",
     "in_domain": "C17.in_domain",
@@ -51,7 +53,7 @@ SPEC = {
         "Go harness (harness/props/c17.go, catcase.go, internal/catinst), add-only hook /repo/executor/verif_catinst.go, Python driver lib/vk.py",
     ],
     "assumptions": [
-        "sequential requests; the concurrent half (Destroy || Create) is refuted on a separate interleaving model (Properties/C17conc.v) and raced on the real code (notes/C17.md)",
+        "the concurrent half is a separate interleaving model (Properties/C17conc.v) tied to the code by the race regression only (no trace validation)",
         "a year file's content is a schema tag; create on a live bucket reuses the bucket's schema in generated cases (AddFile copies the header of a map-order-dependent template file)",
         "the model treats utils.TimeframeFromString as an input; years lie in 1..9999",
     ],
@@ -60,11 +62,11 @@ SPEC = {
                   "requests over the key spaces {A/1Min/G, A/5Min/G, B/1Min/G} and {A/1Min/G, A/1Min/H, B/1Min/G} x years {2021,2022} x two schemas, from an empty root, the "
                   "in-memory catalog (tree and directMap) equals catalog.NewDirectory of the disk, and its buckets and years are exactly those of the specification state. "
                   "Induction over the sequence; invariant = explicit table of the 730 reachable states per key space, closure under the 41 requests checked by vm_compute. "
-                  "C17_anyname_refuted: a symbol called metadata.db is listed by the running catalog but skipped by a restart. Concurrent: C17conc_refuted (Destroy || Create below one symbol) and "
-                  "C17conc_guarded_K: on the interleaving model, for EVERY schedule of one AddTimeBucket thread (whole or scan/install) and one step-wise RemoveTimeBucket thread over two buckets x two years "
-                  "that never work below the same symbol, every quiescent state is consistent (reachable set by BFS, closure by vm_compute).",
-    "level_note": "No axioms. The general statement over all names/years (C17_seq_general) is stated, not proved. Concurrent half: refutation witness + bounded guarded theorem on an interleaving model "
-                  "(node ids canonically renumbered after every label), race replay of the real RemoveTimeBucket against AddTimeBucket; the real mutexes are assumed. Modelled not verified: catalog/catalog.go, frontend/write.go, executor/writer.go (catalog part).",
+                  "Concurrent (since the root-lock fix): C17conc_all_schedules_K - on the interleaving model with the root lock, for EVERY schedule (no guard) of an AddTimeBucket thread (whole or scan/install) "
+                  "and two step-wise RemoveTimeBucket threads over three buckets, every quiescent state is consistent (reachable set by BFS, closure by vm_compute). The former findings "
+                  "(Destroy || Create race, symbol metadata.db) are fixed in /repo and kept as regressions (race tool, corpus).",
+    "level_note": "No axioms. The general statement over all names/years (C17_seq_general) is stated, not proved. Concurrent half: bounded-alphabet theorem over all schedules of an interleaving model "
+                  "(node ids canonically renumbered after every label, root lock in the state) + race regression of the real RemoveTimeBucket against AddTimeBucket (60 trials per run); the real mutexes are assumed. Modelled not verified: catalog/catalog.go, frontend/write.go, executor/writer.go (catalog part).",
     "design_ref": "§6 C17",
     "post": race_post,
 }
